@@ -46,13 +46,29 @@ static void op_c04_sweep(Exec& x, const Json& op, int)
 	const Content& c = lc->c;
 	StripeMap sm = build_stripes(c);
 	unsigned bs = c.block_size;
-	// all blocks must be synced for the "exactly" part of the oracle
-	for (auto& f : c.files) for (auto& b : f.blocks) if (b.state != BS_BLK) return;
+	// all blocks must be synced for the "exactly" part of the oracle. On an array that is only partly synced (a sync stopped
+	// early) the fully synced stripes still promise detection: there only "reported, located, failing status, marked bad" is
+	// judged, for damage in stripes whose blocks are all synced and whose files are unchanged on disk
+	bool partial = false;
+	for (auto& f : c.files) for (auto& b : f.blocks) if (b.state != BS_BLK) partial = true;
+	for (auto& m : c.maps) if (!m.deleted.empty()) partial = true;
+	std::vector<bool> clean(c.blockmax, true);
+	for (auto& m : c.maps) for (auto& kv : m.deleted) if (kv.first < c.blockmax) clean[kv.first] = false;
+	for (auto& f : c.files) {
+		const DiskCfg* d = x.sb.disk(c.maps[f.map_idx].name);
+		uint64_t sz = 0; int64_t ms = 0, mns = 0;
+		bool same = d && x.sb.stat_file(d->top + "/" + f.sub, sz, ms, mns) && sz == f.size && ms == f.mtime_sec && mns == f.mtime_nsec;
+		if (!same) partial = true; // changed on disk and not recorded at all (the early-stopped sync was refused or failed)
+		for (auto& b : f.blocks) if (b.pos < c.blockmax && (b.state != BS_BLK || !same)) clean[b.pos] = false;
+	}
+	if (partial && !op.num("partial")) return;
+	if (partial) x.probe("c04.partly_synced_arrays");
 	std::vector<Target> targets;
 	for (size_t fi = 0; fi < c.files.size(); ++fi) {
 		const CFile& f = c.files[fi];
 		std::string rel = x.sb.disk(c.maps[f.map_idx].name)->top + "/" + f.sub;
 		for (size_t bi = 0; bi < f.blocks.size(); ++bi) {
+			if (f.blocks[bi].pos >= c.blockmax || !clean[f.blocks[bi].pos]) continue;
 			Target t;
 			t.parity = false; t.file_idx = (int)fi; t.block_idx = (uint32_t)bi; t.level = -1; t.pos = f.blocks[bi].pos;
 			t.rel = rel; t.off = (uint64_t)bi * bs; t.len = std::min<uint64_t>(bs, f.size - t.off);
@@ -62,7 +78,7 @@ static void op_c04_sweep(Exec& x, const Json& op, int)
 	for (uint32_t pos = 0; pos < c.blockmax; ++pos) {
 		bool used = false;
 		for (auto& b : sm.at[pos]) if (b.file_idx >= 0) used = true;
-		if (!used) continue;
+		if (!used || !clean[pos]) continue;
 		for (int l = 0; l < x.sb.cfg.np; ++l) {
 			Target t;
 			t.parity = true; t.file_idx = -1; t.block_idx = 0; t.level = l; t.pos = pos;
@@ -90,7 +106,7 @@ static void op_c04_sweep(Exec& x, const Json& op, int)
 		int limit = (int)op.num("limit", 0);
 		bool all = limit <= 0;
 		// control: no damage, every command
-		for (int cm = 0; cm < 4; ++cm) cases.push_back({ {}, 0, cm, 0 });
+		if (!partial) for (int cm = 0; cm < 4; ++cm) cases.push_back({ {}, 0, cm, 0 });
 		std::vector<size_t> order(targets.size());
 		for (size_t i = 0; i < order.size(); ++i) order[i] = i;
 		for (size_t i = order.size(); i > 1; --i) std::swap(order[i - 1], order[r.below(i)]);
@@ -181,7 +197,7 @@ static void op_c04_sweep(Exec& x, const Json& op, int)
 		} else {
 			if (r1.exit_code != 0) x.violation("C04", "false-alarm-exit", when + strf(": undamaged array, exit %d: ", r1.exit_code) + r1.err.substr(0, 200), focus);
 		}
-		for (auto& g : got) if (!expect.count(g) && !optional.count(g)) x.violation("C04", cs1.t.empty() ? "false-alarm-tag" : "wrong-location", when + ": unexpected tag " + g, focus);
+		if (!partial) for (auto& g : got) if (!expect.count(g) && !optional.count(g)) x.violation("C04", cs1.t.empty() ? "false-alarm-tag" : "wrong-location", when + ": unexpected tag " + g, focus);
 		// scrub: bad marks exactly on the affected stripes, visible in status
 		if (s.cmd == "scrub") {
 			std::vector<LoadedContent> after = load_contents(x.sb);
@@ -191,7 +207,7 @@ static void op_c04_sweep(Exec& x, const Json& op, int)
 				std::set<uint32_t> marked;
 				for (uint32_t p = 0; p < la->c.blockmax; ++p) if (la->c.info[p].present && la->c.info[p].bad) marked.insert(p);
 				for (auto p : bad_stripes) if (!marked.count(p)) x.violation("C04", "bad-mark-missing", when + strf(": stripe %u not marked bad", p), focus);
-				for (auto p : marked) if (!bad_stripes.count(p)) x.violation("C04", "bad-mark-spurious", when + strf(": stripe %u marked bad without damage", p), focus);
+				for (auto p : marked) if (!bad_stripes.count(p) && (!partial || clean[p])) x.violation("C04", "bad-mark-spurious", when + strf(": stripe %u marked bad without damage", p), focus);
 				CmdSpec st;
 				st.cmd = "status";
 				st.opts = { "-G" };
@@ -208,7 +224,7 @@ static void op_c04_sweep(Exec& x, const Json& op, int)
 			}
 			// the marks do not blind later commands: a check still locates exactly the same data errors, and once the
 			// data is back (here: restored from the harness copy) scrub -p bad verifies the stripes and clears the marks
-			if (!cs1.t.empty()) {
+			if (!cs1.t.empty() && !partial) {
 				CmdSpec ca;
 				ca.cmd = "check";
 				ca.opts = { "-a" };
@@ -242,7 +258,7 @@ static void op_c04_sweep(Exec& x, const Json& op, int)
 			}
 			// nothing but the content files changed
 			Snap now = x.sb.snapshot_all();
-			for (auto& kv : (cs1.t.empty() ? damaged : pre)) {
+			for (auto& kv : ((cs1.t.empty() || partial) ? damaged : pre)) {
 				bool is_content = false;
 				for (auto& cf : x.sb.cfg.content) if (kv.first == cf || starts_with(kv.first, cf + ".")) is_content = true;
 				if (is_content) continue;
@@ -273,7 +289,19 @@ static RunPlan gen_silent(uint64_t seed, int tier)
 	RunPlan p = gen_history_to_synced(rng, "silent", seed, tier, 5);
 	// sometimes the array was just converted to the other hash kind: every stripe still carries old-kind hashes
 	if (rng.chance(1, 5)) p.ops.push_back(Json::obj().set("k", "rehash").set("seed", rng.next() >> 1));
-	p.ops.push_back(Json::obj().set("k", "c04_sweep").set("seed", rng.next() >> 1).set("limit", tier ? 0 : 14));
+	bool partial = rng.chance(1, 4);
+	if (partial) {
+		// changes recorded by a sync that stops early: pending and freed blocks in some stripes, the others stay fully synced
+		for (auto& o : gen_mutations(rng, p.cfg, (int)rng.range(1, 4))) p.ops.push_back(o);
+		p.ops.push_back(Json::obj().set("k", "delete").set("d", (int64_t)rng.below(p.cfg.disks.size())).set("f", (int64_t)rng.below(32)));
+		CmdSpec s;
+		s.cmd = "sync";
+		s.opts = { "-E", "-Z" };
+		if (rng.chance(1, 2)) { s.opts.push_back("-S"); s.opts.push_back(strf("%d", (int)rng.range(1, 6))); }
+		else { s.opts.push_back("-B"); s.opts.push_back(strf("%d", (int)rng.range(1, 3))); }
+		p.ops.push_back(op_cmd(gen_sched(rng, s)));
+	}
+	p.ops.push_back(Json::obj().set("k", "c04_sweep").set("seed", rng.next() >> 1).set("limit", tier ? 0 : 14).set("partial", partial ? 1 : 0));
 	return p;
 }
 
